@@ -114,6 +114,14 @@ PROBES = [
 ]
 
 
+for _mid in ["map", "map_async", "buffer", "delay", "rate_limit", "latest", "partition", "timed_window", "timed_window_unique"]:
+    for _a in (None, True):
+        for _via in ("last", "source"):
+            if _via == "source" and _mid not in ("map_async", "buffer"):
+                continue
+            PROBES.append({"kind": "chain", "mid": _mid, "asynchronous": _a, "start_via": _via})
+
+
 def run_probes():
     here = os.path.dirname(os.path.abspath(__file__))
     procs = []
@@ -137,6 +145,18 @@ def judge_probe(r):
     if r.get("error"):
         return [("C19/probe-error/%s" % cfg["kind"], "run-through probe %s failed: %s" % (cfg, r["error"]))]
     out = []
+    if cfg["kind"] == "chain":
+        want_main = declared
+        fm = r.get("func_on_main_thread") or []
+        bad = (not r["sink_on_main_thread"] or any(v is not want_main for v in r["sink_on_main_thread"]) or any(v is not want_main for v in fm)
+               or r.get("worker_on_node_loop") is False or (declared and (r["thread_started_at_construction"] or not r["loop_is_current"]))
+               or (not declared and r["loop_is_current"]))
+        if bad:
+            out.append(("C19/run-through/chain/%s/%s" % (cfg["mid"], "declared-async" if declared else "blocking"),
+                        "%s: callbacks must run on the %s: sink_on_main_thread=%s func_on_main_thread=%s worker_on_node_loop=%s loop_is_current=%s thread_started=%s"
+                        % (cfg, "caller's loop" if declared else "shared background loop", r["sink_on_main_thread"], fm,
+                           r.get("worker_on_node_loop"), r["loop_is_current"], r["thread_started_at_construction"])))
+        return out
     if declared:
         if r["thread_started_at_construction"] or not r["loop_is_current"] or not all(r["sink_on_main_thread"]) or not r["sink_on_main_thread"]:
             sig = "C19/declared-async/sink-on-background-thread" if cfg.get("asynchronous") is True and cfg["kind"].startswith("from_") \
